@@ -376,3 +376,26 @@ func (E *Engine) knownFailing(obl string) bool {
 	}
 	return E.knownSet[obl]
 }
+
+// GenLemmas turns the stand-alone lemmas (facts about the spec functions, no program state) into obligations.
+func (E *Engine) GenLemmas(prop string) (n int, errs []string) {
+	for _, cl := range E.Specs.Lemmas {
+		if !hasProp(cl.Props, prop) {
+			continue
+		}
+		func() {
+			defer func() {
+				if r := recover(); r != nil {
+					errs = append(errs, fmt.Sprintf("lemma %s: %v", cl.Label, r))
+				}
+			}()
+			m := &Machine{E: E, Heap: map[int]Val{}, G: map[string]*Term{}}
+			m.Entry = &Snapshot{G: map[string]*Term{}, Heap: map[int]Val{}}
+			ev := &Evaluator{E: E, M: m, Old: m.Entry}
+			g := ev.EvalBool(cl.Expr, cl.Src)
+			E.addObl(m, &Obligation{Name: "lemma:" + cl.Label, Func: "lemma", Kind: "lemma", Props: cl.Props, Reading: cl.Reading, Goal: g, Src: cl.Src})
+			n++
+		}()
+	}
+	return
+}
